@@ -18,5 +18,5 @@ CONSTANTS
   RowMode = "full"
 INIT Init
 NEXT NextRows
-INVARIANTS TypeOK AssigneeEligible PickAmongBest PickSpreads NoEligibleMeansNone
+INVARIANTS TypeOK AssigneeEligible MevIsPerChain PickAmongBest PickSpreads NoEligibleMeansNone
 CHECK_DEADLOCK FALSE
